@@ -279,7 +279,8 @@ def pl(l):
         form = l[2] if len(l) > 2 else 0
         if form == 1:
             return '(Max{1 :- %s} is null)' % pb(l[1])
-        if len(l[1]) == 1 and l[1][0][0] == 'call':
+        if len(l[1]) == 1 and l[1][0][0] == 'call' and \
+                'valueeq' not in (l[1][0][3] if len(l[1][0]) > 3 else ()):
             return '~' + pl(l[1][0])
         return '~(%s)' % pb(l[1])
     if k == 'impl':
